@@ -1,4 +1,6 @@
 import OsacaVerif.Model.DG
+import OsacaVerif.Lemmas.Tracking
+import OsacaVerif.Lemmas.DGraph
 /-
   C06 — Store-to-load dependencies through provably equal addresses on both ISAs.
 
@@ -99,5 +101,90 @@ example : isMemload (memOp (some { pre := ofString "x", name := ofString "2" }) 
 example : isMemload (memOp (some { name := ofString "rbx" }) none 1 (some 8))
     (loadIns (memOp (some { name := ofString "rbx" }) none 1 (some 0)))
     (updateState [] [(ofString "rbx", some ⟨ofString "rbx", 8⟩)]) = true := by decide +kernel
+
+/-! ### semantic soundness of the tracker (concrete register valuations, `Lemmas/Tracking.lean`)
+
+  `Val = Txt → Int` (keyed by the full register name, as the tracker is).  `Exec ρ ch ρ'`: `ρ'` is a
+  possible result of performing the reported changes `ch` left to right (`r := n + v`; an unknown
+  change writes an arbitrary value; all other registers unchanged).  `Tracks ρ0 ρ s`: every register
+  tracked as `(n, v)` holds `ρ0 n + v`, every register without entry holds its initial value.
+
+  Outcome on the side condition asked for in DESIGN.md ("the name recorded for a tracked register is
+  never itself overwritten"): it is NOT needed.  Entries refer to the valuation `ρ0` at the store,
+  not to the current one, and the store's address is evaluated at `ρ0` as well — see the example
+  `copy_then_clobber` below.  What the semantics does not cover is partial-register aliasing
+  (`eax` vs `rax` are different keys of the tracker and of `Val`), see `alias_write_invisible`. -/
+
+/-- **`tracks_preserved`**: `updateState` preserves the tracker's invariant along any execution of
+    the reported changes (all states, all change lists, all non-deterministic outcomes) -/
+theorem tracks_preserved (ρ0 ρ ρ' : Val) (s : RegState) (ch : List (Txt × Option Change))
+    (h : Tracks ρ0 ρ s) (hx : Exec ρ ch ρ') : Tracks ρ0 ρ' (updateState s ch) :=
+  tracks_updateState ρ0 ρ ρ' s ch h hx
+
+/-- **`tracking_sound`**: whenever the tracked state describes the current valuation `ρ` relative to
+    the valuation `ρ0` at the store and `is_memload` reports a dependency, a memory source operand of
+    the instruction has *exactly* the store's address, `base (+ index·scale) + displacement`
+    evaluated at the store (`ρ0`) resp. at the load (`ρ`).  No side condition. -/
+theorem tracking_sound (ρ0 ρ : Val) (st : Mem) (i : Ins) (s : RegState) (h : Tracks ρ0 ρ s)
+    (hm : isMemload st i s = true) :
+    ∃ ld, Op.mem ld ∈ i.src ++ i.srcDst ∧ addr st ρ0 = addr ld ρ :=
+  isMemload_sound ρ0 ρ st i s h hm
+
+/-- **`store_load_edge_sound`** (the property end to end, ∀ kernels): every store→load emission of
+    `find_depending` for producer `p` names a memory destination `m` of `p` and an instruction `c` of
+    the following code such that, starting from ANY valuation `ρ0`, for EVERY execution of `p`'s
+    changes, of the instructions before `c`, and of `c`'s own pre-access changes, some memory source
+    operand of `c` has the same concrete address as `m` had at the store. -/
+theorem store_load_edge_sound (isa : Isa) (p : Ins) (rest : List Ins) (l : Nat) (tg : Tag)
+    (h : (l, tg) ∈ findDependingMem isa p rest) :
+    ∃ m, Op.mem m ∈ p.dst ++ p.srcDst ∧ ∃ j c, rest[j]? = some c ∧ c.line = l ∧ tg = Tag.storeLoad ∧
+      ∀ ρ0 ρ1 ρj ρ', Exec ρ0 p.changes ρ1 → ExecSeq ρ1 (rest.take j) ρj → Exec ρj c.changes ρ' →
+        ∃ ld, Op.mem ld ∈ c.src ++ c.srcDst ∧ addr m ρ0 = addr ld ρ' := by
+  simp only [findDependingMem, List.mem_flatMap] at h
+  obtain ⟨d, hd, hmem⟩ := h
+  cases d with
+  | mem m =>
+    obtain ⟨j, c, hj, hl, htg, hall⟩ := scanMem_sound isa m rest l tg _ hmem
+    refine ⟨m, hd, j, c, hj, hl, htg, ?_⟩
+    intro ρ0 ρ1 ρj ρ' h0 hseq hc
+    exact hall ρ0 ρ1 ρj ρ' (tracks_updateState ρ0 ρ0 ρ1 [] _ (tracks_init ρ0) h0) hseq hc
+  | reg r => simp [memPart] at hmem
+  | flag n => simp [memPart] at hmem
+  | other => simp [memPart] at hmem
+
+-- non-vacuity: a concrete execution exists (`rbx := rbx + 8` from a valuation with rbx = 100) and the
+-- invariant holds of the tracked state; the conclusion of `tracking_sound` is then 100 + 8 = 108 + 0
+example :
+    let ρ0 : Val := fun r => if r = ofString "rbx" then 100 else 0
+    Exec ρ0 [(ofString "rbx", some ⟨ofString "rbx", 8⟩)] (ρ0.set (ofString "rbx") 108) ∧
+    Tracks ρ0 (ρ0.set (ofString "rbx") 108) (updateState [] [(ofString "rbx", some ⟨ofString "rbx", 8⟩)]) := by
+  intro ρ0
+  have hx : Exec ρ0 [(ofString "rbx", some ⟨ofString "rbx", 8⟩)] (ρ0.set (ofString "rbx") 108) :=
+    Exec.cons (by simp [Step1, ρ0]) (Exec.nil _)
+  exact ⟨hx, tracks_preserved ρ0 ρ0 _ [] _ (tracks_init ρ0) hx⟩
+
+example :
+    let ρ0 : Val := fun r => if r = ofString "rbx" then 100 else 0
+    addr (memOp (some { name := ofString "rbx" }) none 1 (some 8)) ρ0 = 108 ∧
+    addr (memOp (some { name := ofString "rbx" }) none 1 (some 0)) (ρ0.set (ofString "rbx") 108) = 108 := by
+  decide +kernel
+
+/-- no side condition on rename sources (`copy_then_clobber`): `rcx := rbx`, then `rbx` is changed
+    beyond reconstruction; a load through `rcx` still hits the store through `rbx` — the tracker says
+    so, and by `tracking_sound` it is right (`rcx` holds the value `rbx` had at the store). -/
+theorem copy_then_clobber :
+    isMemload (memOp (some { name := ofString "rbx" }) none 1 (some 8))
+      (loadIns (memOp (some { name := ofString "rcx" }) none 1 (some 8)))
+      (updateState [] [(ofString "rcx", some ⟨ofString "rbx", 0⟩), (ofString "rbx", none)]) = true := by
+  decide +kernel
+
+/-- limitation of the name-keyed tracker, outside the property's wording (`alias_write_invisible`):
+    an unknown write to `eax` leaves the entry of `rax` untouched, so the dependency through `rax` is
+    still reported.  The semantics above has the same granularity (`eax`, `rax` are different keys). -/
+theorem alias_write_invisible :
+    isMemload (memOp (some { name := ofString "rax" }) none 1 (some 0))
+      (loadIns (memOp (some { name := ofString "rax" }) none 1 (some 0)))
+      (updateState [] [(ofString "eax", none)]) = true := by
+  decide +kernel
 
 end OsacaVerif.Props.C06
